@@ -1109,7 +1109,7 @@ func verifC27GroupsAre(want [][]*verifC27Ev, got []*command.CDCIndexedEventGroup
 	return ""
 }
 
-// the changes of a table definition VerifC27Chain chooses from (quick: the first four)
+// the changes of a table definition VerifC27Chain chooses from (quick: the first three)
 var verifC27ChainDDL = []verifC27DDLStep{
 	{vdNone, 0}, {vdAddColumn, 0}, {vdDropFirst, 0}, {vdAddColumn, 1},
 	{vdDropLast, 0}, {vdDropFirst, 1}, {vdDropLast, 1},
@@ -1132,10 +1132,10 @@ func VerifC27Chain() {
 	g := 0
 	for t := range txs {
 		p := verifName("tx", t)
-		// table definitions only change in the runs without a filter; thorough: before the second
-		// transaction any of the seven steps, before the third one of the first three
+		// table definitions only change in the runs without a filter; quick: one of the first three steps;
+		// thorough: before the second transaction any of the seven, before the third one of the first three
 		if t > 0 && filter == 0 {
-			nd := 4
+			nd := 3
 			if thorough {
 				nd = len(verifC27ChainDDL)
 				if t > 1 {
